@@ -160,6 +160,11 @@ def build_overlay(workdir, pkgdirs):
             with open(inst, "w") as fh:
                 fh.write(body)
             repl[os.path.join(REPO, pkgdir, os.path.basename(t)[:-5])] = inst
+    # hooks (non-test files, build tag verif) that a driver of ANOTHER package relies on are injected into every build
+    for f in sorted(glob.glob(os.path.join(HARNESS, "inpkg", "**", "zz_verif_*_hook.go"), recursive=True)):
+        if _driver_wanted(os.path.basename(f)):
+            rel = os.path.relpath(os.path.dirname(f), os.path.join(HARNESS, "inpkg"))
+            repl[os.path.join(REPO, rel, os.path.basename(f))] = f
     ov = os.path.join(workdir, "overlay.json")
     with open(ov, "w") as fh:
         json.dump({"Replace": repl}, fh, indent=1)
